@@ -64,12 +64,13 @@ NO_WALL_CLOCK = {
 }
 
 # mechanism key -> candidate repair (vlib.monitors.rngtap.FIXES) that removes it, so that the next source becomes visible
-PEEL = {
-    "diverges-at:testcase.py:TestCase._resolve_head_references": "resolve-head-sorted",
-    "timing:timeout-flag-differs:empty-test": "empty-test-timeout",
-}
-FIX_ORDER = ["resolve-head-sorted", "empty-test-timeout"]
-KEY_OF_FIX = {v: k for k, v in PEEL.items()}
+# Both divergence sources this machinery was built to peel away (9de9373 hash-ordered crossover, ebca6ec empty-test race) are
+# repaired in the tree now, so no key has a candidate repair any more.  What remains of the peeling loop is ONE re-run of the same
+# pair without any change ("reproduce"): a divergence is reported only if the pair diverges again; one that does not reproduce
+# (wall-clock effects of a loaded machine, e.g. in the assertion-filtering subprocess executor) is an anomaly.
+PEEL: dict = {}
+FIX_ORDER = ["reproduce"]
+KEY_OF_FIX: dict = {}
 
 
 def floors(tier):
@@ -288,6 +289,13 @@ def run_case(ctx, case, idx, proj, breaks=None, peel_budget=None, assume_fixes=(
                 # the held-back divergence is gone with the repairs applied so far.  One repair: its mechanism.  Several (another
                 # known divergence showed up first at an intermediate level and may have masked it): no single culprit can be
                 # named without more runs, so the key names the set of known sources that explains it.
+                if fixes == ["reproduce"]:
+                    for key, desc, wcase in pending:
+                        ctx.anomaly(f"divergence-not-reproduced:{key}")
+                        ctx.count("divergences_not_reproduced_on_rerun")
+                        ctx.extra.setdefault("not_reproduced", []).append({"key": key, "desc": (desc or "")[:300]})
+                    pending = []
+                    break
                 if len(fixes) == 1:
                     attributed = KEY_OF_FIX[fixes[0]]
                 else:
